@@ -5,6 +5,7 @@ pub mod c05;
 pub mod c23;
 pub mod c25;
 pub mod c26;
+pub mod c30;
 pub mod srvchk;
 pub mod c10;
 pub mod c11;
@@ -55,6 +56,7 @@ pub fn lookup(id: &str) -> Option<Entry> {
         "C23" | "C24" => e!(c23),
         "C25" => e!(c25),
         "C26" | "C27" => e!(c26),
+        "C30" => e!(c30),
         _ => None,
     }
 }
